@@ -267,7 +267,10 @@ func (g *progGen) leaf() string {
 func (g *progGen) agg(inner string) string {
 	// topk/bottomk are left out: with equal values the engine may keep either series, so two correct
 	// evaluations can differ.
-	op := []string{"sum", "max", "min", "count", "avg", "group", "quantile", "stddev"}[g.x.Draw("agg-op", 8)]
+	// stddev/stdvar are left out as well: the engine feeds an aggregation group in map order, so even
+	// two unsharded evaluations differ in the last bits, and the square root near zero amplifies that
+	// beyond any sensible tolerance.
+	op := []string{"sum", "max", "min", "count", "avg", "group", "quantile"}[g.x.Draw("agg-op", 7)]
 	mod := "by"
 	if g.x.Bool("agg-without", 1, 3) {
 		mod = "without"
@@ -554,7 +557,7 @@ func projection(ls labels.Labels, by bool, names []string) string {
 func shapeOf(q string) string {
 	var feats []string
 	for _, f := range []string{"label_replace", "label_join", "histogram_quantile", "group_left", "on () ", "on (", "ignoring (", " without ", " by ",
-		"topk", "quantile by", "quantile without", "stddev", " and ", " or ", " unless ", "rate(", "increase(", "abs("} {
+		"quantile by", "quantile without", " and ", " or ", " unless ", "rate(", "increase(", "abs("} {
 		if strings.Contains(q, f) {
 			feats = append(feats, strings.TrimSpace(strings.Trim(f, "( ")))
 		}
@@ -615,5 +618,7 @@ func closeEnough(a, b float64) bool {
 	if a == b {
 		return true
 	}
-	return math.Abs(a-b) <= 1e-9*math.Max(math.Abs(a), math.Abs(b))
+	// 1e-9 relative; the absolute floor covers cancellation to (almost) zero when the engine adds the
+	// same numbers in a different order (inputs are of magnitude <= 1e5, so that noise is <= 1e-10).
+	return math.Abs(a-b) <= 1e-9*math.Max(math.Abs(a), math.Abs(b)) || math.Abs(a-b) <= 1e-6
 }
